@@ -245,6 +245,20 @@ def ptIdx (P : Option (Int × Int)) (i : Nat) : Except PyErr Int :=
 /-- `math.ceil(num / den)` for a positive denominator, computed exactly -/
 def ceilDiv (num den : Int) : Int := -((-num) / den)
 
+/-- a `BlockHeader` object: the constructor's parameters in order -/
+structure PyHeader where
+  version : Int
+  previous_block_hash : Bytes
+  merkle_root : Bytes
+  timestamp : Int
+  target_bits : Int
+  nonce : Int
+deriving Repr, Inhabited
+
+/-- `struct.unpack(fmt, buf)`: the buffer must have exactly the size of the format -/
+def bufExact (buf : Bytes) (size : Nat) : Except PyErr Bytes :=
+  if buf.length = size then .ok buf else .error .structError
+
 /-- a `Transaction` object: the constructor's parameters in order -/
 structure PyTx where
   inputs : List PyTxIn
